@@ -15,6 +15,9 @@ package main
 //	           raw QUIC clients against the accept handshake (Model/Bridge.v accept_stream)
 //	concurrent.go  several paced streams on one listener between the same two nodes while other
 //	           streams between them are aborted mid-transfer by the dialler or by the acceptor
+//	abrupt.go  the writer ends the whole connection (CloseConnection) right after its writes while the
+//	           reader is late or slow or the links lose and reorder: a prefix, and never an early
+//	           end-of-stream (Model/Bridge.v abort_ok)
 //	longlived.go  one stream that outlives every timer around a connection (a minute of silence
 //	           with reads pending on both ends), concurrently with everything else
 
@@ -30,7 +33,7 @@ func main() { Main("C03", run, nil) }
 func run(c *Ctx) {
 	QuietLogs()
 	im := NewImpl("C03", c.Seed, c.Tier)
-	im.Rule = "bridge: utils.BridgeConns over two scripted connections, each with 0-12 Read results (chunks of 0, 1..64, ..2000 and exactly 65536 bytes; EOF, 'use of closed network connection' and other errors at any position, with and without data) and Write results (ok, short, error at any position); non-trivial = an error or failed write before the end of the script, or data arriving together with the error. mesh: per topology (chains of 2-5 nodes = 1-4 hops; a diamond whose cheaper path is cut mid-transfer) and per fault profile (per-link drop 0-10 %, duplication 0-5 %, delay 0-3 ms => reordering) bidirectional transfers of 0 B .. 1 MiB (thorough: 8 MiB) with random write boundaries, writer half-closes, reader reads to EOF; also through a BridgeConns relay pair over TCP (the services TCP proxies); non-trivial = a transfer that crosses a faulty or re-routed link; distinct by (topology, profile, sizes, seed). long-lived: one stream with 1-2 KB each way, 61 s of silence with a Read pending on both ends, 1-2 KB more each way, half-close (runs beside everything else). concurrent: 3 paced bidirectional streams of 90-130 KB on one listener while 5 other streams between the same nodes are aborted mid-transfer (dialler CloseConnection while the server sends; acceptor CloseConnection while the dialler sends). services: the real services.TCPProxyServiceInbound/Outbound pair, services.UnixProxyServiceInbound/Outbound pair and the control service's connect command (text and JSON form) over 2 lossy hops, 3 exchanges each (small both ways, 60-120 KB one way, the other way), client half-close seen as EOF by the server; expiry: a paced bidirectional transfer over 2 hops during which, for 300 ms each, one end's datagrams reach the next node without hop budget and are answered with 'message expired' notices; raw QUIC clients whose first stream byte is 0, not 0, or missing against a real Listener (accept handshake)"
+	im.Rule = "bridge: utils.BridgeConns over two scripted connections, each with 0-12 Read results (chunks of 0, 1..64, ..2000 and exactly 65536 bytes; EOF, 'use of closed network connection' and other errors at any position, with and without data) and Write results (ok, short, error at any position); non-trivial = an error or failed write before the end of the script, or data arriving together with the error. mesh: per topology (chains of 2-5 nodes = 1-4 hops; a diamond whose cheaper path is cut mid-transfer) and per fault profile (per-link drop 0-10 %, duplication 0-5 %, delay 0-3 ms => reordering) bidirectional transfers of 0 B .. 1 MiB (thorough: 8 MiB) with random write boundaries, writer half-closes, reader reads to EOF; also through a BridgeConns relay pair over TCP (the services TCP proxies); non-trivial = a transfer that crosses a faulty or re-routed link; distinct by (topology, profile, sizes, seed). long-lived: one stream with 1-2 KB each way, 61 s of silence with a Read pending on both ends, 1-2 KB more each way, half-close (runs beside everything else). concurrent: 3 paced bidirectional streams of 90-130 KB on one listener while 5 other streams between the same nodes are aborted mid-transfer (dialler CloseConnection while the server sends; acceptor CloseConnection while the dialler sends). services: the real services.TCPProxyServiceInbound/Outbound pair, services.UnixProxyServiceInbound/Outbound pair and the control service's connect command (text and JSON form) over 2 lossy hops, 3 exchanges each (small both ways, 60-120 KB one way, the other way), client half-close seen as EOF by the server; expiry: a paced bidirectional transfer over 2 hops during which, for 300 ms each, one end's datagrams reach the next node without hop budget and are answered with 'message expired' notices; raw QUIC clients whose first stream byte is 0, not 0, or missing against a real Listener (accept handshake); abrupt end: on a clean 1-hop mesh and on a 2-hop mesh whose links drop 8 %, duplicate 2 % and delay up to 20 ms, 7 (thorough: 24) streams each at the same time whose writer (the dialler or the acceptor) writes 0 B .. 300 KB in random writes, calls Close (4 in 5) and then, 0-220 ms later, CloseConnection, while the reader starts 0 s .. 3 s later and reads with 1 B .. 8 KB buffers, some paced (first two hand-picked: 200 KB and 1500 B with a reader 2-2.5 s late); oracle from the property text: the bytes read are a prefix of the bytes written, a reader told end-of-stream has ALL written bytes and the writer had closed, any other ending is an error; transfers of at most 2 KB also go to Coq (CAbort, Model/Bridge.v abort_ok); non-trivial = a reader that got fewer bytes than written (and an error)"
 	cf := &CaseFile{Dir: c.Out, Prop: "C03", Imports: []string{"Model.Bridge"}, CaseType: "bridge_case", CheckFn: "bridge_check", PerShard: 150}
 	t0 := time.Now()
 	// started first, joined last: it needs more than a minute and nothing else waits for it
@@ -38,6 +41,7 @@ func run(c *Ctx) {
 	conc, concWG := startConcurrent(c)
 	svc, svcWG := startServices(c)
 	exp, expWG := startExpiry(c)
+	abr, abrWG := startAbrupt(c)
 	bridgeCases(c, im, cf)
 	im.Extra["wall_bridge_s"] = time.Since(t0).Seconds()
 	t1 := time.Now()
@@ -46,6 +50,11 @@ func run(c *Ctx) {
 	joinLongLived(im, cf, conc, concWG)
 	joinServices(im, cf, svc, svcWG)
 	joinLongLived(im, cf, exp, expWG)
+	joinLongLived(im, cf, abr, abrWG)
+	for k, v := range abruptStats {
+		im.Extra["abrupt_end:"+k] = v
+	}
+	im.Count("abrupt end: a reader that lost data was told so by an error", abruptStats["reader_lost_data_and_got_an_error"] > 0)
 	joinLongLived(im, cf, long, longWG)
 	Must(cf.Write())
 	Must(im.Write(c.Out))
